@@ -12,18 +12,23 @@
 (***************************************************************************)
 EXTENDS Ram
 VARIABLE l
-tvars == <<ei, db, stack, vars, outs, oob, last, l>>
+tvars == <<ei, db, stack, vars, outs, oob, last, glog, l>>
 
 TInit == Init /\ l = 1
 TraceOf == RamTraces[ei]
 Evt == TraceOf[l]
 SizesMatch(D, sz) == \A r \in DOMAIN sz : r \in DOMAIN D /\ Cardinality(D[r]) = sz[r]
 
+RECURSIVE HasBreak(_)
+HasBreak(op) == \/ op.k = "Break"
+                \/ ("body" \in DOMAIN op /\ HasBreak(op.body))
 Consume == /\ l <= Len(TraceOf)
            /\ Next
            /\ last'.e = Evt.e
            /\ last'.sid = Evt.sid
            /\ (Evt.e = "Exit" => last'.taken = Evt.taken)
+           \* number of INSERT executions of the query (scan-order independent unless a BREAK cuts a scan short)
+           /\ (Evt.e = "Query" /\ ~HasBreak(S.op)) => last'.att = Evt.att
            /\ SizesMatch(db', Evt.sz)
            /\ l' = l + 1
 \* the whole trace was consumed and the machine has terminated as well
